@@ -28,7 +28,7 @@ def run(ctx):
     report = Report("C14", ctx, "R1: no undischarged panic site reachable from the receive loops of the responder, the "
                     "service-discovery listener and the one-shot resolver (sync and async back-ends), across the crate "
                     "boundary into simple_dns; R2: no open site is reachable while a RwLock guard is alive, which is what "
-                    "discharges the LockResult::unwrap sites; R3: buffer slicing by the received count uses the recv_from "
+                    "discharges the LockResult::unwrap sites; R4: no Display/Debug impl reached from there constructs fmt::Error; R3: buffer slicing by the received count uses the recv_from "
                     "post-condition.")
     rs = roots(ctx, report)
     reach = panicrule.check_panics(ctx, report, rs, "C14-R1", "C14", skip_kinds=("call:alloc",), lock_rule=True)
@@ -45,6 +45,17 @@ def run(ctx):
         report.discharged += len(locks)
         for k in locks:
             report.nontriv("lock:" + k)
+    # R4: to_string() / format!() of received names runs Display impls; one that builds its own fmt::Error makes
+    # ToString::to_string panic (std: "a Display implementation returned an error unexpectedly")
+    import c12
+    fmt_roots = [bid for bid in reach if ctx.prog.bodies[bid].impl and
+                 ctx.prog.bodies[bid].impl["trait"] in ("std::fmt::Debug", "std::fmt::Display") and ctx.prog.bodies[bid].name == "fmt"]
+    freach = ctx.cg.reachable(fmt_roots)
+    n_err = c12.fmt_err_rule(ctx, report, freach, "C14-R4")
+    report.floor("Display/Debug impls run by datagram handling", len(fmt_roots), 2)
+    report.extra["display_impls_reached"] = sorted(ctx.prog.bodies[x].qname for x in fmt_roots)
+    if not n_err:
+        report.nontriv("no fmt::Error constructed")
     report.floor("LockResult::unwrap sites in datagram handling", len(locks), 3)
     report.assumptions += ["A-OVF", "allocation failure out of scope",
                            "locks are only poisoned by panics in the analysed code (application callbacks are channel sends)",
